@@ -98,6 +98,12 @@ MODELS = [
 CONSTS = {
     'base64::prelude::STANDARD': lambda it, st: st.ref(Agg('base64::GeneralPurpose', ('STANDARD',))),
     'base64::engine::general_purpose::STANDARD': lambda it, st: st.ref(Agg('base64::GeneralPurpose', ('STANDARD',))),
+    'base64::engine::general_purpose::STANDARD_NO_PAD': lambda it, st: st.ref(Agg('base64::GeneralPurpose', ('STANDARD_NO_PAD',))),
+    'base64::prelude::BASE64_STANDARD_NO_PAD': lambda it, st: st.ref(Agg('base64::GeneralPurpose', ('STANDARD_NO_PAD',))),
+    'base64::engine::general_purpose::URL_SAFE': lambda it, st: st.ref(Agg('base64::GeneralPurpose', ('URL_SAFE',))),
+    'base64::prelude::BASE64_URL_SAFE': lambda it, st: st.ref(Agg('base64::GeneralPurpose', ('URL_SAFE',))),
+    'base64::engine::general_purpose::URL_SAFE_NO_PAD': lambda it, st: st.ref(Agg('base64::GeneralPurpose', ('URL_SAFE_NO_PAD',))),
+    'base64::prelude::BASE64_URL_SAFE_NO_PAD': lambda it, st: st.ref(Agg('base64::GeneralPurpose', ('URL_SAFE_NO_PAD',))),
 }
 
 
@@ -248,7 +254,8 @@ def run_delegation(rep, prog):
             if good:
                 kind, got = ev[0]
                 if isinstance(got, Agg) and got.name.endswith('Base64Display'):
-                    good = got.fields[1].fields[0] == 'STANDARD' and isinstance(got.fields[0], BStr)
+                    eng = got.fields[1] if len(got.fields) > 1 else None
+                    good = isinstance(eng, Agg) and eng.fields[:1] == ('STANDARD',) and isinstance(got.fields[0], BStr)
                     same = bstr_eq(got.fields[0], val) if good else z3.BoolVal(False)
                 elif isinstance(got, Agg) and got.name.endswith('DelayedFormat'):
                     item = s2.deref_all(got.fields[1])
